@@ -272,6 +272,16 @@ pub fn run(_ctx: &Ctx, rep: &mut Report) {
         rep.guard("category changes 8 times, class 308 times along 1..=7462", strict_name == 8 && strict_class == 308, format!("{} {}", strict_name, strict_class));
     }
     rep.add_space("adjacent values 1..=7462: derived order of category and class enumerations", &acc, t0, "non-decreasing, strict exactly at an oracle category / class change; Invalid last");
+    {
+        let vals = [0u64, 1, 2, 166, 167, 3325, 7461, 7462, 7463, 7464, 65535];
+        let mut items = Vec::new();
+        for a in vals {
+            for b in vals {
+                items.push(Case::new("pair", &[a, b]));
+            }
+        }
+        super::history2(rep, judge, &items);
+    }
     rep.sample(sample_json("pair", "from(1) vs from(2)", &format!("{:?}", HandRank::from(1).cmp(&HandRank::from(2)))));
     rep.sample(sample_json("pair", "from(0) vs from(7463)", &format!("cmp {:?}, == {}", HandRank::from(0).cmp(&HandRank::from(7463)), HandRank::from(0) == HandRank::from(7463))));
     rep.sample(sample_json("pair", "from(0) vs from(7462)", &format!("{:?}", HandRank::from(0).cmp(&HandRank::from(7462)))));
